@@ -464,6 +464,16 @@ func runSocket(e *Env, hostile bool) {
 					b[4], b[5] = byte(len(b)>>8), byte(len(b))
 				}
 				f = genFrame{raw: b, desc: fmt.Sprintf("truncated-to-%d", l)}
+			case !hostile && c.Kind == "tcp" && e.Choose("wl.jumbo", 12) == 0:
+				// up to the largest encodable frame (the total length field has 16 bits)
+				n := []int{1010, 1024, 4080, 4090, 4096, 4097, 8192, 20000, 65000, 65525}[e.Choose("wl.jumbolen", 10)]
+				b := cemi.LBusmonInd(gen.bytes("wl.jumbob", 16))
+				b = append(b, make([]byte, n-16)...)
+				for j := 16; j < len(b); j += 97 {
+					b[j] = byte(j)
+				}
+				f = genFrame{raw: knxnet.AllocAndPack(&knxnet.RoutingInd{Payload: &b}), desc: fmt.Sprintf("jumbo-%d", n)}
+				e.Probe("tcp-jumbo-frame")
 			case !hostile:
 				f = gen.valid(c.Kind == "router")
 			case e.Choose("wl.hostile", 3) == 0:
@@ -590,11 +600,18 @@ func (r *sockRun) flushTCP(peer *simnet.TCPConn, stream []byte) {
 	off := 0
 	for off < len(stream) {
 		n := len(stream) - off
-		switch r.c.Dribble {
+		dribble := r.c.Dribble
+		if len(stream) > 6000 && (dribble == "bytes" || dribble == "header-split") {
+			dribble = "random" // a jumbo frame byte by byte would cost tens of thousands of steps for nothing
+		}
+		switch dribble {
 		case "bytes":
 			n = 1
 		case "random":
 			n = 1 + e.Choose("wl.seg", minInt(n, 300))
+			if len(stream) > 6000 {
+				n = 1 + e.Choose("wl.segbig", minInt(len(stream)-off, 3000))
+			}
 		case "header-split":
 			n = 1 + e.Choose("wl.segh", minInt(n, 7))
 		case "coalesce":
